@@ -1,5 +1,113 @@
-//! Free-running (real concurrency, 16 cores) driver -- filled in later
-pub fn main(_spec: &str, _out: &str) {
-    eprintln!("free-running driver: not built yet");
-    std::process::exit(2);
+//! Free-running driver (real concurrency on all cores, hooks inactive): threads hammer a container in
+//! rounds; every call and return is stamped from one global counter (sound real-time order); the merged
+//! history is written in the trace format and judged by the L1 monitor (TLC, Trace_LinQueue).
+
+use crate::cont_suts::{make_cont, Cont};
+use crate::sched::Xorshift;
+use serde_json::{json, Value};
+use std::io::Write;
+use std::sync::atomic::{AtomicU64, Ordering::SeqCst};
+use std::sync::{Arc, Barrier};
+
+struct Rec {
+    stamp: u64,
+    ret: bool,
+    t: usize,
+    op: &'static str,
+    v: u32,
+    ok: bool,
+}
+
+fn one_run(c: Arc<dyn Cont>, threads: usize, rounds: usize, ops: usize, seed: u64, put_bias: u64) -> Vec<Rec> {
+    let clock = Arc::new(AtomicU64::new(1));
+    let barrier = Arc::new(Barrier::new(threads));
+    let mut hs = vec![];
+    for t in 0..threads {
+        let c = Arc::clone(&c);
+        let clock = Arc::clone(&clock);
+        let barrier = Arc::clone(&barrier);
+        hs.push(std::thread::spawn(move || {
+            let mut rng = Xorshift(seed.wrapping_mul(0x9E3779B97F4A7C15).wrapping_add(t as u64 * 7919 + 1) | 1);
+            rng.next();
+            let mut recs: Vec<Rec> = Vec::with_capacity(rounds * ops * 2);
+            let mut serial = 0u32;
+            for _r in 0..rounds {
+                barrier.wait();
+                for _ in 0..ops {
+                    if rng.next() % 100 < put_bias {
+                        serial += 1;
+                        let v = (t as u32 + 1) * 100_000 + serial;
+                        let s0 = clock.fetch_add(1, SeqCst);
+                        let ok = c.put(v);
+                        let s1 = clock.fetch_add(1, SeqCst);
+                        recs.push(Rec { stamp: s0, ret: false, t, op: "enq", v, ok: true });
+                        recs.push(Rec { stamp: s1, ret: true, t, op: "enq", v: 0, ok });
+                    } else {
+                        let s0 = clock.fetch_add(1, SeqCst);
+                        let r = c.take();
+                        let s1 = clock.fetch_add(1, SeqCst);
+                        recs.push(Rec { stamp: s0, ret: false, t, op: "deq", v: 0, ok: true });
+                        recs.push(Rec { stamp: s1, ret: true, t, op: "deq", v: r.unwrap_or(0), ok: r.is_some() });
+                    }
+                }
+                barrier.wait();
+            }
+            recs
+        }));
+    }
+    let mut all: Vec<Rec> = vec![];
+    for h in hs {
+        all.extend(h.join().unwrap());
+    }
+    all.sort_by_key(|r| r.stamp);
+    all
+}
+
+pub fn main(spec_path: &str, out_path: &str) {
+    let spec: Value = serde_json::from_str(&std::fs::read_to_string(spec_path).expect("spec")).expect("spec json");
+    let mut out = std::io::BufWriter::new(std::fs::File::create(out_path).expect("out"));
+    let mut meta = std::io::BufWriter::new(std::fs::File::create(format!("{out_path}.runs")).expect("runs"));
+    let mut line = 0u64;
+    for (ci, case) in spec["cases"].as_array().expect("cases").iter().enumerate() {
+        let kind = case["sut"].as_str().unwrap();
+        let n = case["n"].as_u64().unwrap_or(2);
+        let threads = case["threads"].as_u64().unwrap_or(4) as usize;
+        let rounds = case["rounds"].as_u64().unwrap_or(50) as usize;
+        let ops = case["ops"].as_u64().unwrap_or(2) as usize;
+        let runs = case["runs"].as_u64().unwrap_or(1);
+        let seed = case["seed"].as_u64().unwrap_or(1);
+        let bias = case["put_bias"].as_u64().unwrap_or(50);
+        let id = case["id"].as_str().map(|s| s.to_string()).unwrap_or(format!("free{ci}"));
+        for run in 1..=runs {
+            let c = make_cont(kind, n).unwrap_or_else(|| panic!("unknown container {kind}/{n}"));
+            let recs = one_run(Arc::clone(&c), threads, rounds, ops, seed * 1000 + run, bias);
+            writeln!(meta, "{}", json!({"scn": id, "run": run, "line": line + 1, "outcome": "complete", "choices": [], "finals": [], "diverged": -1, "final": Value::Null})).unwrap();
+            writeln!(out, "{}", json!({"k":"reset","t":-1,"fn":"","fld":"","o":"","a":0,"b":0,"r":0,"ok":true,"obj":0,"x":{"scn": id, "run": run, "origin": 0, "outcome": "complete"}})).unwrap();
+            line += 1;
+            for r in recs.iter() {
+                let ev = if r.ret {
+                    json!({"k":"ret","t":r.t,"fn":r.op,"fld":"","o":"","a":0,"b":0,"r":0,"ok":true,"obj":0,"x":{"ok": r.ok, "v": r.v}})
+                } else {
+                    json!({"k":"call","t":r.t,"fn":r.op,"fld":"","o":"","a":0,"b":0,"r":0,"ok":true,"obj":0,"x":{"op": r.op, "v": r.v, "i": 0}})
+                };
+                writeln!(out, "{}", ev).unwrap();
+                line += 1;
+            }
+            let len = c.len();
+            let mut drained = vec![];
+            while let Some(v) = c.take() {
+                drained.push(v);
+                if drained.len() > 64 {
+                    break;
+                }
+            }
+            if kind.starts_with("stack") {
+                drained.reverse();
+            }
+            writeln!(out, "{}", json!({"k":"final","t":-1,"fn":"","fld":"","o":"","a":0,"b":0,"r":0,"ok":true,"obj":0,"x":{"hard": false, "len": len, "drained": drained}})).unwrap();
+            line += 1;
+        }
+    }
+    out.flush().unwrap();
+    meta.flush().unwrap();
 }
